@@ -403,8 +403,25 @@ func (w *MarkdownWriter) extractParagraphText(para *document.Paragraph) string {
 
 	var result strings.Builder
 
+	// 中间没有空白、直接相接且格式相同的Run（一个词被拆成了几个Run）合成一个输出：
+	// 各自加标记会让相邻的标记连在一起（"**a****b**"、"~~a~~~~b~~"），无法再被解析。
+	// 没有文字的Run（图片、域字符等）不输出内容，也不隔开两边的文字。
+	runs := make([]document.Run, 0, len(para.Runs))
 	for _, run := range para.Runs {
-		text := w.formatRunText(&run)
+		if run.Text.Content == "" {
+			continue
+		}
+		if last := len(runs) - 1; last >= 0 && runsTouch(&runs[last], &run) && w.sameInlineFormat(&runs[last], &run) {
+			runs[last].Text.Content += run.Text.Content
+			continue
+		}
+		runs = append(runs, run)
+	}
+
+	for i := range runs {
+		touchesPrev := i > 0 && runsTouch(&runs[i-1], &runs[i])
+		touchesNext := i+1 < len(runs) && runsTouch(&runs[i], &runs[i+1])
+		text := w.formatRunTextTouching(&runs[i], true, touchesPrev, touchesNext)
 		// Markdown不区分连续的空白：相邻Run交界处的空白只保留一个
 		if strings.HasPrefix(text, " ") && strings.HasSuffix(result.String(), " ") {
 			text = strings.TrimLeft(text, " ")
@@ -413,6 +430,27 @@ func (w *MarkdownWriter) extractParagraphText(para *document.Paragraph) string {
 	}
 
 	return result.String()
+}
+
+// runsTouch 判断两个相邻的Run是否直接相接（前一个不以空白结尾，后一个不以空白开头）
+func runsTouch(a, b *document.Run) bool {
+	x, y := a.Text.Content, b.Text.Content
+	if x == "" || y == "" {
+		return false
+	}
+	return !strings.ContainsRune(" \t\n\r", rune(x[len(x)-1])) && !strings.ContainsRune(" \t\n\r", rune(y[0]))
+}
+
+// sameInlineFormat 判断两个Run导出成Markdown时的格式（粗体、斜体、删除线、代码）是否相同
+func (w *MarkdownWriter) sameInlineFormat(a, b *document.Run) bool {
+	type inlineFormat struct{ bold, italic, strike, code bool }
+	formatOf := func(run *document.Run) inlineFormat {
+		if run.Properties == nil {
+			return inlineFormat{}
+		}
+		return inlineFormat{run.Properties.Bold != nil, run.Properties.Italic != nil, run.Properties.Strike != nil, w.isCodeStyle(run.Properties)}
+	}
+	return formatOf(a) == formatOf(b)
 }
 
 // markdownEscaper 转义在行内有Markdown含义的字符，使文本原样显示
@@ -428,6 +466,11 @@ func (w *MarkdownWriter) formatRunText(run *document.Run) string {
 
 // formatRunTextWith 格式化文本运行；emphasis 为 false 时不输出粗体/斜体标记（用于表头）
 func (w *MarkdownWriter) formatRunTextWith(run *document.Run, emphasis bool) string {
+	return w.formatRunTextTouching(run, emphasis, false, false)
+}
+
+// formatRunTextTouching 格式化文本运行；touchesPrev/touchesNext 表示文字与前/后一个Run的文字直接相接
+func (w *MarkdownWriter) formatRunTextTouching(run *document.Run, emphasis bool, touchesPrev, touchesNext bool) string {
 	if run == nil {
 		return ""
 	}
@@ -461,10 +504,10 @@ func (w *MarkdownWriter) formatRunTextWith(run *document.Run, emphasis bool) str
 	if w.opts.WrapLongLines && strings.ContainsAny(trimmed, " \t\n") {
 		words := strings.Fields(trimmed)
 		parts := make([]string, 0, len(words))
-		for _, word := range words {
+		for k, word := range words {
 			single := *run
 			single.Text.Content = word
-			parts = append(parts, w.formatRunTextWith(&single, emphasis))
+			parts = append(parts, w.formatRunTextTouching(&single, emphasis, touchesPrev && k == 0, touchesNext && k == len(words)-1))
 		}
 		if lead != "" {
 			lead = " "
@@ -501,7 +544,12 @@ func (w *MarkdownWriter) formatRunTextWith(run *document.Run, emphasis bool) str
 				trimmed = "**" + trimmed + "**" // 粗体
 			}
 		} else if run.Properties.Italic != nil {
-			trimmed = w.opts.EmphasisMarker + trimmed + w.opts.EmphasisMarker // 斜体
+			// 下划线在词内不能作为斜体标记：与相邻文字直接相接时用星号
+			italicMarker := w.opts.EmphasisMarker
+			if touchesPrev || touchesNext {
+				italicMarker = "*"
+			}
+			trimmed = italicMarker + trimmed + italicMarker // 斜体
 		}
 	}
 
